@@ -102,8 +102,8 @@ type InMemoryStore struct {
 	mu              sync.RWMutex
 	state           ClusterMetadata
 	offsets         map[string]int64
-	consumerOffsets map[string]int64
-	consumerMeta    map[string]string
+	consumerOffsets map[consumerOffsetID]int64
+	consumerMeta    map[consumerOffsetID]string
 	consumerGroups  map[string]*metadatapb.ConsumerGroup
 	topicConfigs    map[string]*metadatapb.TopicConfig
 }
@@ -113,8 +113,8 @@ func NewInMemoryStore(state ClusterMetadata) *InMemoryStore {
 	return &InMemoryStore{
 		state:           cloneMetadata(state),
 		offsets:         make(map[string]int64),
-		consumerOffsets: make(map[string]int64),
-		consumerMeta:    make(map[string]string),
+		consumerOffsets: make(map[consumerOffsetID]int64),
+		consumerMeta:    make(map[consumerOffsetID]string),
 		consumerGroups:  make(map[string]*metadatapb.ConsumerGroup),
 		topicConfigs:    make(map[string]*metadatapb.TopicConfig),
 	}
@@ -282,6 +282,14 @@ func partitionKey(topic string, partition int32) string {
 
 func consumerKey(group, topic string, partition int32) string {
 	return fmt.Sprintf("%s:%s:%d", group, topic, partition)
+}
+
+// consumerOffsetID identifies a committed offset. It is a struct rather than a
+// joined string so that names containing the separator cannot alias each other.
+type consumerOffsetID struct {
+	group     string
+	topic     string
+	partition int32
 }
 
 // CreateTopic implements Store.CreateTopic.
@@ -481,7 +489,7 @@ func (s *InMemoryStore) CommitConsumerOffset(ctx context.Context, group, topic s
 	}
 	s.mu.Lock()
 	defer s.mu.Unlock()
-	key := consumerKey(group, topic, partition)
+	key := consumerOffsetID{group: group, topic: topic, partition: partition}
 	s.consumerOffsets[key] = offset
 	s.consumerMeta[key] = metadata
 	return nil
@@ -496,7 +504,7 @@ func (s *InMemoryStore) FetchConsumerOffset(ctx context.Context, group, topic st
 	}
 	s.mu.RLock()
 	defer s.mu.RUnlock()
-	key := consumerKey(group, topic, partition)
+	key := consumerOffsetID{group: group, topic: topic, partition: partition}
 	return s.consumerOffsets[key], s.consumerMeta[key], nil
 }
 
@@ -511,14 +519,10 @@ func (s *InMemoryStore) ListConsumerOffsets(ctx context.Context) ([]ConsumerOffs
 	defer s.mu.RUnlock()
 	offsets := make([]ConsumerOffset, 0, len(s.consumerOffsets))
 	for key, offset := range s.consumerOffsets {
-		group, topic, partition, ok := parseConsumerKey(key)
-		if !ok {
-			continue
-		}
 		offsets = append(offsets, ConsumerOffset{
-			Group:     group,
-			Topic:     topic,
-			Partition: partition,
+			Group:     key.group,
+			Topic:     key.topic,
+			Partition: key.partition,
 			Offset:    offset,
 		})
 	}
